@@ -450,6 +450,60 @@ def rewire(ctx, rule="C11.rewire"):
     ctx.floor(rule, 2)
 
 
+REACHABILITY = ("ancestors", "descendants", "has_path", "transitive_closure", "all_simple_paths", "shortest_path", "dfs_preorder_nodes",
+                "bfs_tree", "dfs_tree", "topological_generations")
+
+
+def merge_convex(ctx, rule="C11.merge-set"):
+    ctx.explain(f"{rule}: gaussian_merge grows the set of operations it merges TRANSITIVELY (successors, displacement chains, predecessors "
+                "of members, predecessors of those ...). Whether such a set can be contracted - no operation outside it lies between two "
+                "members - is a reachability question that one-step predecessor / successor tests cannot answer. Every path of "
+                "get_valid_gaussian_merge_ops to a return that hands out candidates therefore passes through a call that reaches "
+                "(through methods of the class) a reachability query on the DAG (networkx ancestors / descendants / has_path ...). "
+                "*because* merging a non-convex set moves gates past the operation in between (a Gaussian gate jumps over a "
+                "non-Gaussian one) or makes the rewired graph cyclic.")
+    cls = ctx.tree.cls(GM, "GaussianMerge")
+    f = cls.methods.get("get_valid_gaussian_merge_ops")
+    ctx.require(f is not None, "anchor vanished: GaussianMerge.get_valid_gaussian_merge_ops")
+    # methods that reach a reachability query
+    direct = {}
+    calls = {}
+    for name, m in cls.methods.items():
+        direct[name] = any(isinstance(c, ast.Call) and (dotted(c.func) or "").split(".")[-1] in REACHABILITY for c in walk_no_nested(m.node))
+        calls[name] = {c.func.attr for c in walk_no_nested(m.node) if isinstance(c, ast.Call) and isinstance(c.func, ast.Attribute)
+                       and dotted(c.func.value) == "self" and c.func.attr in cls.methods}
+    reach = {n for n, d in direct.items() if d}
+    changed = True
+    while changed:
+        changed = False
+        for n_, cs in calls.items():
+            if n_ not in reach and cs & reach:
+                reach.add(n_)
+                changed = True
+    cfg = cfg_of(f.node)
+    through = set()
+    for nd in cfg.nodes:
+        if nd.ast is None:
+            continue
+        for c in ast.walk(nd.ast):
+            if isinstance(c, ast.Call):
+                last = (dotted(c.func) or "").split(".")[-1]
+                if last in REACHABILITY or (isinstance(c.func, ast.Attribute) and dotted(c.func.value) == "self" and last in reach):
+                    through.add(nd.id)
+    exits = []
+    for r, v in return_values(f.node):
+        if isinstance(v, ast.List) and not v.elts:
+            continue
+        exits += cfg.find(r)
+    ctx.require(exits, "get_valid_gaussian_merge_ops returns no candidate list")
+    ok = cfg.must_pass(cfg.entry, through, exits=exits, exc=False)
+    ctx.ob(rule, f.site, ok, "" if ok else "the merge candidates are validated by one-step predecessor / successor tests only: a member reached "
+           "through another arm can lie behind a non-merged operation that follows an earlier member (e.g. Sgate q1; BSgate (q0,q2); Vgate q2; "
+           "BSgate (q0,q2); Rgate q0; BSgate (q1,q0) merges everything in front of the Vgate)", role="convex-set", line=f.node.lineno,
+           detail={"methods_reaching_a_reachability_query": sorted(reach)})
+    ctx.floor(rule, 1)
+
+
 def rules(ctx):
     from . import c04
     c04.register_index(ctx, "C11.register-index")
@@ -460,6 +514,7 @@ def rules(ctx):
     unfiltered(ctx)
     nonempty(ctx)
     rewire(ctx)
+    merge_convex(ctx)
     from . import common_backend as _B
     _B.polar_pair(ctx, "C11.polar", ("compilers/gaussian_unitary.py", "compilers/gaussian_merge.py"))
     ctx.floor("C11.polar", 1)
